@@ -14,19 +14,19 @@ CLAIMED = {
          "DESIGN.md §6 C02"),
  "C06": ("exploration", "bounded-exhaustive enumeration of inputs (E1 sweep) plus population worlds around the candidate limit",
          "Per-candidate oracle on every completion result of the E1 product with prefill off and on (edit applicability, tab-stop grammar), list length against the limit.",
-         "Snippet grammar parsed with a small regular grammar honouring backslash-dollar; catalogue texts contain no dollar signs of their own.",
+         "Snippet grammar parsed with a small regular grammar honouring backslash-dollar; an HCL-escaped literal template marker ($${) in the plain text is text, not a tab stop. The run of tab-stop numbers must be gap-free; it need not start at 1 (label candidates start at 2).",
          "DESIGN.md §6 C06"),
  "C12": ("exploration", "bounded-exhaustive enumeration of inputs (E1 sweep), safety oracle on every hover result",
          "Hover at every cursor of every file: nil/error or non-empty content with a range containing the cursor in the requested file.",
          "Exactness of the content against the effective schema is checked only on generator-built files.",
          "DESIGN.md §6 C12"),
  "C13": ("exploration", "bounded-exhaustive enumeration of inputs (E1 sweep), structural oracle on every token list",
-         "Token lists of every file incl. broken ones: sorted, disjoint, non-empty, advertised types, well-formed ranges.",
-         "Exactness of the token set is checked only on generator-built files.",
+         "Token lists of every file incl. broken ones: sorted, disjoint, non-empty, advertised types, well-formed ranges; on generator-built files exactly the schema-known names/types/labels with the modifiers of all enclosing blocks, one literal token per plain literal, reference-step tokens for exactly the collected origins that resolve (a resolved plain traversal: one token per step on the step's own extent).",
+         "Exactness only on generator-built files. References at places the type-directed token walk does not reach are open known findings (5 situations); a literal that conforms to the declared type is not among them.",
          "DESIGN.md §6 C13"),
  "C20": ("exploration", "bounded-exhaustive enumeration of inputs (E1 sweep) and generated call grammar",
          "Signature help at every cursor: known function, parameter list = fixed ++ variadic, active index valid.",
-         "Function set is the catalogue's (0..2 fixed parameters, variadic, namespaced, parameterless).",
+         "Function set is the catalogue's (0..3 fixed parameters, variadic, namespaced, parameterless, two signatures sharing one parameter table); parameter names are compared; CRLF and comments between arguments; complete calls nested in half-typed ones.",
          "DESIGN.md §6 C20"),
  "C03": ("model_checking", "deviation-bounded choice-point DFS over map-iteration orders on the instrumented real code (E3) + query-history pairs + fresh-decoder differential",
          "Every range-over-map in the library is rewritten (at check time, by overlay) into a choice point; for every world and query all choice vectors within the deviation bound are executed and the canonical result must equal the canonical-order result; histories: every query repeated after all others, all ordered pairs of representative queries vs a fresh decoder; decoder rebuilt with reversed insertion order.",
@@ -54,11 +54,11 @@ CLAIMED = {
          "DESIGN.md §6 C07"),
  "C08": ("exploration", "bounded-exhaustive enumeration of value-completion cursors (E1 sweep) with per-candidate oracles and an accept / re-collect / go-to-definition round trip",
          "Every completion candidate inside an attribute value: reference candidates name a collected declaration, start with the typed text, are visible, are not the edited attribute and (top-level positions) fit scope/type or contain a nested declaration that does; function candidates are known and convertible; keyword/boolean candidate sets are exactly the admitted ones; accepted fitting references resolve back to their declaration.",
-         "The expected scope/type is only known at top-level value positions; nested positions get the weaker checks.",
+         "The expected scope/type is known at top-level value positions and at plain operands of operators (the operator's parameter type); other nested positions get the weaker checks. Literal candidates of LiteralValue / LiteralType constraints are accepted and re-parsed (LiteralValue: must evaluate to the value) under stated premises.",
          "DESIGN.md §6 C08"),
  "C09": ("exploration", "bounded-exhaustive enumeration of configs for every addressable schema form (E1 sweep) with forest invariants and a top-level reference model",
          "On every collected forest: nested address = parent + one step, indexes = real positions in source order, unique steps, elements inside written values, element ranges disjoint, definition range inside range; on cleanly parsing files every range is an item extent, every addressable declaration with a resolvable address has its target with the declaration's extent/header, as-reference targets are type-less, nothing is collected inside items unknown to the effective schema.",
-         "Types of expression-typed targets are not predicted; the address-resolution model is written from the statement (static/label/attribute-value steps).",
+         "Address-resolution model written from the statement (static/label/attribute-value steps); a block's targets may carry only addresses the schema gives that block; declared types (as-type-of), typed targets for attributes addressable by expression type, and the written plain-literal elements of inferred bodies are predicted; other inferred types are not.",
          "DESIGN.md §6 C09"),
  "C10": ("exploration", "bounded-exhaustive enumeration of a typed expression grammar with generator-recorded references (E2), plus soundness on the E1 sweep",
          "Every expression of the typed grammar (depth 2/3) under every admitting and non-admitting constraint in 8 body contexts: the multiset of (address, exact range) of collected local origins equals the generator's list of written references; ordering by file and position; on all sweep files each origin's text re-parses to its address and no duplicates exist.",
